@@ -919,6 +919,8 @@ func genRtE2E(emit func(string), tier string, rng *Rng) {
 		count("random")
 		count(fmt.Sprintf("random:files=%d", len(files)))
 	}
+	// --- h. the last sentence of the property on ARBITRARY decoder output: fixtures, structure-aware mutants, … (op `redec`)
+	genReDec(emit, tier, rng.Fork(0x7ede))
 	_ = sort.Strings
 	_ = hex.EncodeToString
 }
